@@ -670,6 +670,8 @@ pub struct History {
     pub recv_after_err: bool,
     /// order of transport events: hash input for the interleaving measure
     pub transport_sig: u64,
+    /// frames handed to a decoder whose worker never sent a result for them
+    pub discarded_frames: u64,
 }
 
 pub fn extract_history(cfg: &BerCfg, events: &[Event], report_chan: Option<usize>) -> History {
@@ -717,9 +719,15 @@ pub fn extract_history(cfg: &BerCfg, events: &[Event], report_chan: Option<usize
         }
         p.worker_tasks[*w] = *t;
     }
-    // pass 3: frames (k-th frame decoded by a task), sends (k-th result sent by a task),
-    // receptions by the collector
+    // pass 3: frames, sends, receptions by the collector. A result message is attributed to the
+    // frame its sender decoded most recently and has not reported yet; a send without such a
+    // frame is the worker's error message, and a frame that is decoded but never followed by a
+    // send of its task (a warm-up frame, a frame dropped at shutdown) belongs to no message.
+    // (Counting "k-th frame = k-th send" instead would shift every later frame of a worker that
+    // discards one, and raise an alarm on a design that keeps the property.)
     let mut frame_count: BTreeMap<usize, u64> = BTreeMap::new();
+    let mut pending_frame: BTreeMap<usize, u64> = BTreeMap::new();
+    let mut discarded_frames = 0u64;
     let mut frame_of: BTreeMap<(usize, u64), (usize, (u64, bool, u64))> = BTreeMap::new(); // (task,k) -> (tag, content)
     let mut send_count: BTreeMap<usize, u64> = BTreeMap::new();
     let mut send_index: BTreeMap<(usize, usize, u64), u64> = BTreeMap::new(); // (chan, task, seq) -> k
@@ -739,9 +747,9 @@ pub fn extract_history(cfg: &BerCfg, events: &[Event], report_chan: Option<usize
         match &ev.ev {
             Ev::Send { chan, seq } => {
                 if let (true, Some(&(_, w))) = (results_chans.contains_key(chan), task_role.get(&ev.task)) {
-                    let k = send_count.entry(ev.task).or_insert(0);
-                    send_index.insert((*chan, ev.task, *seq), *k);
-                    *k += 1;
+                    *send_count.entry(ev.task).or_insert(0) += 1;
+                    // u64::MAX: no unreported frame, i.e. an error message
+                    send_index.insert((*chan, ev.task, *seq), pending_frame.remove(&ev.task).unwrap_or(u64::MAX));
                     sent_on.entry(*chan).or_default().push((ev.task, *seq));
                     mixin(1, w as u64);
                 } else if ev.task == 0 {
@@ -808,6 +816,9 @@ pub fn extract_history(cfg: &BerCfg, events: &[Event], report_chan: Option<usize
                     };
                     let k = frame_count.entry(ev.task).or_insert(0);
                     frame_of.insert((ev.task, *k), (e, fr));
+                    if pending_frame.insert(ev.task, *k).is_some() {
+                        discarded_frames += 1;
+                    }
                     *k += 1;
                 }
                 "chain-fail" => {
@@ -843,7 +854,7 @@ pub fn extract_history(cfg: &BerCfg, events: &[Event], report_chan: Option<usize
             }
         }
     }
-    History { points, anomalies, transport, recv_after_err, transport_sig: sig }
+    History { points, anomalies, transport, recv_after_err, transport_sig: sig, discarded_frames }
 }
 
 // ---------------------------------------------------------------------------
@@ -1056,7 +1067,15 @@ pub fn oracle_c13(cfg: &BerCfg, obs: &BerObs) -> (Vec<Violation>, OracleStats) {
     let hist = extract_history(cfg, &out.events, root.report_chan);
     if !hist.anomalies.is_empty() {
         // the decoder was handed another matrix, length or iteration limit than configured:
-        // that is the chain's business (C12), C13 says nothing about this run
+        // that is the chain's business (C12), C13 says nothing about this run — except that a
+        // configuration whose block sizes do not fit must still end in an error (seeded change
+        // C13-r4-3: a modulator that silently truncates the frame instead of refusing it)
+        let no_frames_possible = cfg.stage_panic()
+            || cfg.decoder_panic.as_ref().is_some_and(|p| p.at_frame == 0 && p.workers.len() >= cfg.workers);
+        if (cfg.stage_error() || no_frames_possible) && f > 0 && matches!(root.result, Some(Ok(_))) {
+            v.push(Violation::new("unexpected-ok", "frames cannot be processed (a block size does not fit the codeword) but run() returned Ok".to_string()));
+            return (v, st);
+        }
         st.chain_skipped = true;
         return (v, st);
     }
@@ -1119,6 +1138,9 @@ pub fn oracle_c13(cfg: &BerCfg, obs: &BerObs) -> (Vec<Violation>, OracleStats) {
     if let Some(m) = &hist.transport {
         v.push(Violation::new("transport", m.clone()));
         return (v, st);
+    }
+    if hist.discarded_frames > 0 {
+        st.probes.add("frames decoded but never reported by their worker (not judged)", hist.discarded_frames);
     }
     if hist.recv_after_err {
         // harmless as such (a collector may drain and discard what is still queued); what
